@@ -215,7 +215,7 @@ func unsignedLeaf(name string, zero any, bits int, caps int) *Leaf {
 		}}
 }
 
-var hostileStrings = []string{"", "a,b", "k:v", `q"uote`, `back\slash`, "sp ace", "tab\there", "ünïcode", "日本", "`tick`", "'single'", "x=y", "-dash", "#hash", "  lead", "trail  ", "{json}", "[1]", "null", "true", "0x10"}
+var hostileStrings = []string{"", "a,b", "k:v", `q"uote`, `back\slash`, "sp ace", "tab\there", "ünïcode", "日本", "`tick`", "'single'", "x=y", "-dash", "#hash", "  lead", "trail  ", "{json}", "[1]", "null", "true", "0x10", "nl\n", "crlf\r\n", "cr\r", "\nlead"}
 
 // GenString produces a string that embeds uniq (so it identifies its origin).
 func GenString(r *fw.Rand, uniq int) string {
